@@ -32,30 +32,34 @@ SetOf(s) == {s[i] : i \in DOMAIN s}
 VARIABLES oid, out
 vars == <<oid, out>>
 
-\* the verdict on the real answer: a set of <<tag, a, b>>
-Real(o, P, V) ==
-   LET ans == [lin |-> o.res.lin, pos |-> SetOf(o.res.pos), neg |-> SetOf(o.res.neg)] IN
-   IF o.res.k = "exc"
-   THEN (IF DefinedOnGrid(V) THEN {<<"FAIL", "raises-on-defined-expression", o.res.exc>>}
-         ELSE {<<"U", "raises-" \o o.res.exc, "">>})
-   ELSE {<<"FAIL", c[1], c[2]>> : c \in Violations(P, V, ans)}
-        \cup (IF o.res.snp = "T" /\ ~AffineV(P, V) THEN {<<"FAIL", "kind-simple-numeric-not-affine", "">>} ELSE {})
-        \cup (IF ~DefinedSomewhere(V) THEN {<<"U", "undefined-everywhere", "">>} ELSE {})
+\* the verdict on the real answer: a set of <<tag, a, b>>; every FAIL is accompanied by the
+\* input feature DivFeature (the driver puts it into the signature)
+Real(o, P, G, V) ==
+   LET ans == [lin |-> o.res.lin, pos |-> SetOf(o.res.pos), neg |-> SetOf(o.res.neg)]
+       fails == IF o.res.k = "exc"
+                THEN (IF DefinedOnGrid(V) THEN {<<"FAIL", "raises-on-defined-expression", o.res.exc>>} ELSE {})
+                ELSE {<<"FAIL", c[1], c[2]>> : c \in Violations(P, G, V, ans)}
+                     \cup (IF o.res.snp = "T" /\ ~AffineV(G, V) THEN {<<"FAIL", "kind-simple-numeric-not-affine", "">>} ELSE {})
+   IN fails
+      \cup (IF fails # {} THEN {<<"FEAT", DivFeature(P, o.e, G), "">>} ELSE {})
+      \cup (IF o.res.k = "exc" /\ ~DefinedOnGrid(V) THEN {<<"U", "raises-" \o o.res.exc, "">>} ELSE {})
+      \cup (IF o.res.k = "ok" /\ ~DefinedSomewhere(V) THEN {<<"U", "undefined-everywhere", "">>} ELSE {})
 
 \* T1: the two variants of the implementation-shaped analysis against the same definition
-Design(o, P, V) ==
+Design(o, P, G, V) ==
    LET sc  == CfgsIn[o.cfg].scope
        lit == An(P, sc, o.e, "literal")
        bnd == An(P, sc, o.e, "bounds")
-   IN {<<"T1-REPAIR", c[1], c[2]>> : c \in Violations(P, V, bnd)}
-      \cup {<<"T1-ASWRITTEN", c[1], c[2]>> : c \in Violations(P, V, lit)}
+   IN {<<"T1-REPAIR", c[1], c[2]>> : c \in Violations(P, G, V, bnd)}
+      \cup {<<"T1-ASWRITTEN", c[1], c[2]>> : c \in Violations(P, G, V, lit)}
       \cup (IF o.res.k = "ok" /\ (lit.lin # o.res.lin \/ lit.pos # SetOf(o.res.pos) \/ lit.neg # SetOf(o.res.neg))
             THEN {<<"T1-DIFF", "", "">>} ELSE {})
 
 Judge(o) ==
    LET P == CfgsIn[o.cfg].P
-       V == ValTab(P, o.e, Grids[o.cfg])
-   IN Real(o, P, V) \cup (IF WithT1 THEN Design(o, P, V) ELSE {})
+       G == Grids[o.cfg]
+       V == ValTab(P, o.e, G)
+   IN Real(o, P, G, V) \cup (IF WithT1 THEN Design(o, P, G, V) ELSE {})
 
 Init == oid \in DOMAIN Obs /\ out = [st |-> "pending", v |-> {}]
 Next == /\ out.st = "pending"
